@@ -57,6 +57,26 @@ PROPS = {
         "trusted_base": ["oracle: Rust std f64 <-> decimal text (the harness passes parse::<f64>/to_string results to the model as a table)"],
         "assumptions": ["RespParser is driven as the server drives it: feed, then parse until None or Err"],
     },
+    "C14": {
+        "n": {"quick": 600, "thorough": 8000},
+        "judge": True,
+        "trivial_outs": {"", "i0"},
+        "rule": "cases = fixed witnesses (F-14a, F-05d, F-14b, the unit tests of pubsub.rs) + random multi-connection histories (2-5 connections; SUB/PSUB/UNSUB/PUNSUB named, all and empty; UNSUBALL; PUB; observers) over colliding pools of 10 channels and 20 patterns, each ending with a dump of every connection, every channel count and one publish per channel + the matcher on ALL (pattern, text) pairs over the alphabet {a b * ? \\} up to length 4x4 (quick) / 5x5 (thorough) + random longer pairs with texts derived from the pattern; one evaluation = one PubSubManager call (or one pattern against all texts) compared between ferrous::pubsub and the extracted Gallina model; receiver lists sorted by connection, the reported pattern of a connection with several matching patterns is an oracle checked for admissibility",
+        "explanation": "theorems: maps-consistency invariant over all histories, matcher = declarative glob (unbounded), publish delivers to exactly the connections with a matching subscription, once per connection (so the per-subscription claim is refuted: c14_delivery_refuted; partial theorem for at most one matching subscription), acknowledgement counts, nothing after unsubscribe / unsubscribe_all; tie: in-process differential run of PubSubManager + pattern_matches against the extracted model; property oracle (Redis glob semantics, per-subscription deliveries, acknowledgement counts) on the implementation's outputs",
+        "trusted_base": ["the server-level delivery of message frames (server.rs handle_publish / handle_subscribe) is not part of this check (lead's server model)"],
+        "assumptions": ["PubSubManager is driven sequentially, as the single command thread of the server does"],
+    },
+    "C19": {
+        "n": {"quick": 500, "thorough": 6000},
+        "judge": True,
+        "needs_server": False,
+        "shards": 12,
+        "trivial_outs": {"", "i0", "i1 i0"},
+        "rule": "cases = the F-19a witness + a 1205-member set (cap 1000, examined bound) + in-process histories on StorageEngine (key spaces of 3-30 keys of all five value types; SCAN with COUNT from {0,1,2,3,4,5,7,10,20,100,1000,1001}, 17 MATCH patterns, 9 TYPE filters, cursors followed from the implementation's reply and odd cursors {len-1,len,len+1,2^63,2^64-1}; additions, deletions and (x- cases) expiries of keys between the calls of an iteration; HSCAN/SSCAN/ZSCAN over collections below and above COUNT, NOVALUES, wrong-type / missing / expired keys, member additions/removals between calls) + command-level histories over TCP (option parsing incl. missing values, bad counts, lower case, non-bulk arguments; cursor parsing; HSCAN/SSCAN/ZSCAN on missing and wrong-type keys), each TCP history ending with SCAN 0 COUNT 1000, KEYS *, DBSIZE; one evaluation = one engine call or one command compared with the extracted Gallina model; unordered fast-path replies sorted",
+        "explanation": "theorems: static completeness (a full iteration over an unchanged key space returns exactly the matching live keys, each once), termination measure, soundness, completeness under modifications that sort at or after the position reached, refutation of the unrestricted claim (c19_concurrent_refuted, F-19a); tie: differential run of engine.rs scan/hscan/sscan/zscan and commands/scan.rs against the extracted model; property oracle: every key present throughout a complete iteration is returned (class scan-shift when a key below the position reached was added or deleted), nothing foreign is returned",
+        "trusted_base": ["oracle: Rust std f64 Display for ZSCAN scores that are not integers below 2^53 (text taken from the implementation)", "MATCH on keys that are not valid UTF-8 goes through from_utf8_lossy in the implementation; the model matches bytes (generator: ASCII plus isolated invalid bytes)"],
+        "assumptions": ["x- cases: real sleeps make short TTLs pass; a key that was given a short TTL is not written again in that case (sweeper timing)"],
+    },
 }
 
 
